@@ -55,6 +55,7 @@ def stmt_row(kind, pat, rhs):
     if r == '': return 'D_Skip'
     if r in ('ast::walk_stmt(self,stmt)', 'ast::walk_stmt(self,stmt);'): return 'D_Walk'
     if re.fullmatch(r'unimplemented!\(.*\);?', r): return 'D_Unimpl'
+    if re.fullmatch(r'lete=self\.ctx\.emitter\.emit\(error!\([^;]*\)\);self\.errors\.set\(e\);', r): return 'D_Reject'
     if kind in ('Block', 'Loop') and r in ('ast::walk_block(self,block)', 'ast::walk_block(self,block);') and binds('block'):
         return 'D_Walk'
     if kind == 'Return' and r == errset('self.check_stmt_return(keyword,value)') and binds('keyword', 'value'):
